@@ -12,7 +12,8 @@ CONSTANTS Bytes,      \* payload byte values explored by the model
           P,          \* prefix size in bytes
           Order,      \* "little" | "big"
           MaxItems, MaxLen, MaxChunk,
-          KeepHist
+          KeepHist,
+          Deviation    \* "none" | "gt-size": a slip re-introduced in the model (non-vacuity)
 
 VARIABLES items, cutoff, pos, acc, out, done, hist
 
@@ -58,7 +59,8 @@ RECURSIVE Parse(_, _)
 Parse(buf, offset) ==   \* returns <<emitted payloads, final offset>>
     IF Len(buf) - offset >= P
     THEN LET size == FromBytes(SubSeq(buf, offset + 1, offset + P)) IN
-         IF Len(buf) - offset - P >= size
+         IF (IF Deviation = "gt-size" THEN Len(buf) - offset - P > size
+             ELSE Len(buf) - offset - P >= size)
          THEN LET r == Parse(buf, offset + size + P) IN
               << <<SubSeq(buf, offset + P + 1, offset + P + size)>> \o r[1], r[2] >>
          ELSE << <<>>, offset >>
